@@ -18,7 +18,6 @@ var vC13Contexts = []string{
 	"### c ###\n",      // 6 after a block comment
 	"200 any\n",        // 7 response body state (stateResponseBody ... stateExpectKeyword)
 	"TYPE @a any\n   ", // 8 after an indented blank
-	"Description\n t\n", // 9 after Description text (directive detection inside text)
 }
 
 // HKeyword (C13): implementation vs. the frozen keyword specification on
